@@ -810,6 +810,8 @@ func (r *run) anyStalled() bool {
 }
 
 func (r *run) ownerAnswered(owner string) bool {
+	r.w.tr.mu.Lock()
+	defer r.w.tr.mu.Unlock()
 	for _, c := range r.w.tr.calls {
 		if callOwner(c) == owner {
 			return c.state == "answered" || c.state == "finished"
